@@ -394,6 +394,7 @@ type C18ConcCase struct {
 	Rounds   int    `json:"rounds"`
 	Yield    []byte `json:"yield"` // per hook call: 0 nothing, 1 Gosched, 2 short sleep
 	Sharding string `json:"sharding"`
+	Versions bool   `json:"versions,omitempty"`
 }
 
 func c18ConcCheck(c C18ConcCase, rec *evid.Rec) error {
@@ -412,6 +413,15 @@ func c18ConcCheck(c C18ConcCase, rec *evid.Rec) error {
 	for i := range keys {
 		keys[i] = fmt.Sprintf("key-%d-shared-tail", i)
 		contents[i] = blob(byte(i), 2000+i*517)
+	}
+	// Versions: writers alternate between two complete values of different length under each key (not
+	// content-addressed use, but nothing in the store forbids it): a reader sees absent, or one of them, whole
+	alt := make([][]byte, c.Keys)
+	for i := range alt {
+		alt[i] = blob(byte(100+i), 300+i*31)
+	}
+	isVersion := func(ki int, b []byte) bool {
+		return bytes.Equal(b, contents[ki]) || (c.Versions && bytes.Equal(b, alt[ki]))
 	}
 	var hookCalls int64
 	var mu sync.Mutex
@@ -442,17 +452,21 @@ func c18ConcCheck(c C18ConcCase, rec *evid.Rec) error {
 			for r := 0; r < c.Rounds; r++ {
 				ki := (w + r) % c.Keys
 				var err error
+				content := contents[ki]
+				if c.Versions && (w+r/2)%2 == 1 {
+					content = alt[ki]
+				}
 				if (w+r)%2 == 0 {
-					err = fs.Put(ctx, keys[ki], contents[ki])
+					err = fs.Put(ctx, keys[ki], content)
 				} else {
 					wr, commit, oerr := fs.PutStream(ctx)
 					if oerr != nil {
 						err = oerr
 					} else {
-						half := len(contents[ki]) / 2
-						_, _ = wr.Write(contents[ki][:half])
+						half := len(content) / 2
+						_, _ = wr.Write(content[:half])
 						runtime.Gosched()
-						_, _ = wr.Write(contents[ki][half:])
+						_, _ = wr.Write(content[half:])
 						err = commit(keys[ki])
 					}
 				}
@@ -470,17 +484,31 @@ func c18ConcCheck(c C18ConcCase, rec *evid.Rec) error {
 			defer wg.Done()
 			for i := 0; i < c.Rounds*3; i++ {
 				ki := (r + i) % c.Keys
-				rd, err := fs.GetStream(ctx, keys[ki])
-				if err != nil {
-					continue // absent
+				var b []byte
+				if (r+i)%2 == 0 {
+					rd, err := fs.GetStream(ctx, keys[ki])
+					if err != nil {
+						continue // absent
+					}
+					var rerr error
+					b, rerr = io.ReadAll(rd)
+					rd.Close()
+					if rerr != nil {
+						errs <- fmt.Errorf("reader: read error on key %d: %v", ki, rerr)
+						return
+					}
+				} else {
+					var err error
+					b, err = fs.Get(ctx, keys[ki])
+					if err != nil {
+						if os.IsNotExist(err) || strings.Contains(err.Error(), "no such file") || strings.Contains(err.Error(), "not found") {
+							continue // absent
+						}
+						errs <- fmt.Errorf("reader: Get of key %d failed while writers were running: %v", ki, err)
+						return
+					}
 				}
-				b, rerr := io.ReadAll(rd)
-				rd.Close()
-				if rerr != nil {
-					errs <- fmt.Errorf("reader: read error on key %d: %v", ki, rerr)
-					return
-				}
-				if !bytes.Equal(b, contents[ki]) {
+				if !isVersion(ki, b) {
 					errs <- fmt.Errorf("reader observed key %d with %d bytes (complete=%v) while writers were running; want absent or the full %d bytes", ki, len(b), blobComplete(b), len(contents[ki]))
 					return
 				}
@@ -495,7 +523,7 @@ func c18ConcCheck(c C18ConcCase, rec *evid.Rec) error {
 	for ki := range keys {
 		if putOK[ki] > 0 {
 			got, err := fs.Get(ctx, keys[ki])
-			if err != nil || !bytes.Equal(got, contents[ki]) {
+			if err != nil || !isVersion(ki, got) {
 				return fmt.Errorf("after concurrent writers: key %d had %d successful puts but reads %d bytes, err %v", ki, putOK[ki], len(got), err)
 			}
 		}
@@ -510,10 +538,10 @@ func c18ConcCheck(c C18ConcCase, rec *evid.Rec) error {
 
 var c18Conc = evid.Part[C18ConcCase]{
 	Prop: "C18", Name: "concurrent", Quick: 120, Thorough: 6000,
-	Rule: "W writers (Put and chunked PutStream) × R readers on overlapping keys of one fsstore, with Gosched/sleep yields injected at hook points by a drawn pattern, built with the race detector; readers must only ever see absent or complete content, every key with a successful put reads complete afterwards; non-trivial = ≥2 writers and ≥1 reader; sampled schedules, distinct by configuration",
+	Rule: "W writers (Put and chunked PutStream; in half of the cases alternating two complete values of different length under each key) × R readers (GetStream and Get) on overlapping keys of one fsstore, with Gosched/sleep yields injected at hook points by a drawn pattern, built with the race detector; readers must only ever see absent or one complete value, every key with a successful put reads complete afterwards; non-trivial = ≥2 writers and ≥1 reader; sampled schedules, distinct by configuration",
 	Gen: func(t *rapid.T) C18ConcCase {
 		return C18ConcCase{Writers: rapid.IntRange(1, 6).Draw(t, "writers"), Readers: rapid.IntRange(0, 4).Draw(t, "readers"), Keys: rapid.IntRange(1, 4).Draw(t, "keys"),
-			Rounds: rapid.IntRange(1, 12).Draw(t, "rounds"), Yield: rapid.SliceOfN(rapid.Byte(), 0, 16).Draw(t, "yield"), Sharding: rapid.SampledFrom([]string{"r12", "r133", "none"}).Draw(t, "sharding")}
+			Rounds: rapid.IntRange(1, 12).Draw(t, "rounds"), Yield: rapid.SliceOfN(rapid.Byte(), 0, 16).Draw(t, "yield"), Sharding: rapid.SampledFrom([]string{"r12", "r133", "none"}).Draw(t, "sharding"), Versions: rapid.Bool().Draw(t, "versions")}
 	},
 	Check: c18ConcCheck,
 }.Reg()
